@@ -9,8 +9,8 @@ TEXT = {
          "in-memory backend only so far; RDB/gRPC/Redis assumed; library contracts in pyvc/lib.py trusted; see evidence.assumptions"),
  "C03": ("proof", "5-C03", "Ghost lock-set obligations: every read/write of a field of the storage object, and of every mutable container reachable from it, lies inside `with self._lock` (one obligation per access, decided by the symbolic executor's held-lock set on every path). With the sequential contracts of C01 this gives atomicity of each call by the standard mutex argument (assumed meta-theorem).",
          "schedules are not explored; the mutex meta-theorem is assumed; only InMemoryStorage so far"),
- "C04": ("proof", "5-C04", "Compare-and-set contract of set_trial_state_values (RUNNING succeeds only from WAITING: behaviour case `lost` returns False and changes nothing) and the WAITING-cursor invariant R4, discharged for all inputs/pre-states.",
-         "atomicity via C03; RDB CAS assumed; in-memory backend"),
+ "C04": ("proof", "5-C04", "Compare-and-set contract of set_trial_state_values (RUNNING succeeds only from WAITING: behaviour case `lost` returns False and changes nothing) and the WAITING-cursor invariant R4, discharged for all inputs/pre-states; the journal replay handler and JournalStorage.set_trial_state_values carry the same compare-and-set cases. At the Study level, against the abstract storage contract: Study._pop_waiting_trial_id returns None having changed nothing, or the id of exactly the one trial that this call moved WAITING -> RUNNING (a raising claim leaves every trial as it was); Study.ask (default usage) returns a Trial whose id is either newly created RUNNING or claimed by this very call, every other trial unchanged; Trial._suggest returns the fixed (enqueued) parameter value.",
+         "atomicity via C03; RDB CAS assumed; Study.ask proved for fixed_distributions=None only; schedules not explored"),
  "C12": ("proof", "5-C12", "Invariant R5 (best_trial_id is None iff no COMPLETE trial; otherwise it names a COMPLETE trial no other COMPLETE trial strictly beats in the study's direction, ±inf included) is preserved by every mutating method, and get_best_trial's postcondition follows from it. BaseStorage.get_best_trial (the generic scan used by journal/cached/gRPC storages) returns a COMPLETE current trial no COMPLETE trial beats, and Study.best_trial returns a deep copy of such a trial or, in the constraint fallback, of a feasible trial no feasible COMPLETE trial beats, computed from the storage's CURRENT trials (all discharged by z3 against an abstract storage contract).",
          "COMPLETE values are one non-NaN float per objective (precondition); RDB ranking SQL not covered; _get_feasible_trials is an assumed contract (feasibility predicate uninterpreted); Pareto front (best_trials) only via the bounded lattice stand-in"),
  "C20": ("proof", "5-C20", "Frame obligations generated automatically for every heap array a setter's contract does not list in `modifies`: every FrozenTrial object and every dict/list hanging off one that was allocated before the call is unchanged afterwards (copy-on-write discipline), for all inputs and pre-states. Study.best_trial returns a fresh deep copy (object and all five attribute dicts fresh); _tell_with_warning and Trial.__init__/_suggest never write to a trial object that existed before the call; journal replay handlers replace, never mutate, shared trial objects.",
